@@ -56,6 +56,76 @@ def parseFArr? (s : String) : Option (Arr (Option Int)) :=
 
 def showNatArr (a : Arr Nat) : String := showNatList a.shape ++ ":" ++ showNatList a.elems
 
+/-! ### typed ops (`tsort`, `targsort`, `tunique`, `targmax`, `targmin`): first argument `<ty>:<rc>`.
+`ty` ∈ i64 | u8 | i8 | str : the lane is an integer array, the harness maps the integers order-preservingly into that
+element type, the model runs on `Cmp.int`.  `ty` = f64 : float-token lane, the model runs on `Cmp.f64` over *keys*
+(`Option Int`): integer `k` ↦ 2k, `z` (= -0.0) ↦ 0 (the same value as 0.0), `e` / `-e` (smallest subnormal) ↦ ±1,
+`I` / `-I` (±inf) ↦ ±2^70, `n` (NaN) ↦ none.  `rc` (p | r | b) only selects the receiver on the Rust side. -/
+
+def inf70 : Int := 1180591620717411303424   -- 2^70
+
+def parseFTok? (t : String) : Option (Option Int) :=
+  match t with
+  | "n" => some none
+  | "z" => some (some 0)
+  | "e" => some (some 1)
+  | "-e" => some (some (-1))
+  | "I" => some (some inf70)
+  | "-I" => some (some (-inf70))
+  | _ => (parseInt? t).map (fun k => some (2 * k))
+
+def parseKArr? (s : String) : Option (Arr (Option Int)) :=
+  match s.splitOn ":" with
+  | [sh, el] => do
+    let shape ← parseNatList? sh
+    let elems ← parseList? parseFTok? el
+    some ⟨elems, shape⟩
+  | _ => none
+
+def showFTok : Option Int → String
+  | none => "n"
+  | some k =>
+    if k == 1 then "e" else if k == -1 then "-e"
+    else if k == inf70 then "I" else if k == -inf70 then "-I"
+    else toString (k / 2)
+
+def showKArr (a : Arr (Option Int)) : String := showNatList a.shape ++ ":" ++ showList showFTok a.elems
+
+/-- `<ty>:<rc>` ↦ is the lane a float-token lane? -/
+def parseTy? (s : String) : Option Bool :=
+  match s.splitOn ":" with
+  | [ty, rc] =>
+    if rc == "p" || rc == "r" || rc == "b" then
+      if ty == "f64" then some true
+      else if ty == "i64" || ty == "u8" || ty == "i8" || ty == "str" then some false
+      else none
+    else none
+  | _ => none
+
+def handleTyped (op : String) (args : List String) : Option String :=
+  match op, args with
+  | "tsort", [ty, a, ax, k] => do
+    let fl ← parseTy? ty; let ax ← parseOpt? parseInt? ax; let k ← parseKindArg? k
+    if fl then do let a ← parseKArr? a; some (showRes showKArr (Sort.sort Cmp.f64 (some 0) a ax k))
+    else do let a ← parseArr? a; some (showRes showArr (Sort.sort Cmp.int 0 a ax k))
+  | "targsort", [ty, a, ax, k] => do
+    let fl ← parseTy? ty; let ax ← parseOpt? parseInt? ax; let k ← parseKindArg? k
+    if fl then do let a ← parseKArr? a; some (showRes showNatArr (Sort.argsort Cmp.f64 (some 0) a ax k))
+    else do let a ← parseArr? a; some (showRes showNatArr (Sort.argsort Cmp.int 0 a ax k))
+  | "tunique", [ty, a, ax] => do
+    let fl ← parseTy? ty; let ax ← parseOpt? parseInt? ax
+    if fl then do let a ← parseKArr? a; some (showRes showKArr (Sort.unique Cmp.f64 (some 0) a ax))
+    else do let a ← parseArr? a; some (showRes showArr (Sort.unique Cmp.int 0 a ax))
+  | "targmax", [ty, a, ax, kd] => do
+    let fl ← parseTy? ty; let ax ← parseOpt? parseInt? ax; let kd ← parseKeep? kd
+    if fl then do let a ← parseKArr? a; some (showRes showNatArr (Sort.argExtreme Cmp.f64 (some 0) true a ax kd))
+    else do let a ← parseArr? a; some (showRes showNatArr (Sort.argExtreme Cmp.int 0 true a ax kd))
+  | "targmin", [ty, a, ax, kd] => do
+    let fl ← parseTy? ty; let ax ← parseOpt? parseInt? ax; let kd ← parseKeep? kd
+    if fl then do let a ← parseKArr? a; some (showRes showNatArr (Sort.argExtreme Cmp.f64 (some 0) false a ax kd))
+    else do let a ← parseArr? a; some (showRes showNatArr (Sort.argExtreme Cmp.int 0 false a ax kd))
+  | _, _ => none
+
 def handle (op : String) (args : List String) : Option String :=
   match op, args with
   | "sort", [a, ax, k] => do
@@ -79,7 +149,7 @@ def handle (op : String) (args : List String) : Option String :=
   | "argmin_f", [a, ax, kd] => do
     let a ← parseFArr? a; let ax ← parseOpt? parseInt? ax; let kd ← parseKeep? kd
     some (showRes showNatArr (Sort.argExtreme Cmp.f64 (some 0) false a ax kd))
-  | _, _ => none
+  | _, _ => handleTyped op args
 
 end Driver.C10
 
